@@ -662,6 +662,9 @@ type listKind struct {
 	build func(tick func(role string, i int)) fp.List[int]
 }
 
+// infinite lists: only a prefix is inspected, no cell is the end of the list
+var infiniteLists = map[string]bool{"list.Recurrence1": true, "list.Recurrence2": true}
+
 var listWant = []int{10, 11, 12}
 
 func listKinds() []listKind {
@@ -710,6 +713,74 @@ func listKinds() []listKind {
 		{"iterator.ToList", func(tick func(string, int)) fp.List[int] { return iterator.ToList(iter(tick)) }},
 		{"list.Collect", func(tick func(string, int)) fp.List[int] { return list.Collect(iter(tick)) }},
 		{"list.FromSeq", func(tick func(string, int)) fp.List[int] { return list.FromSeq(fp.Seq[int]{10, 11, 12}) }},
+		// the other producers of package list that take a user function or generator (the
+		// function of FlatMap-based producers returns non-empty lists: with an empty result the
+		// search for the next non-empty one is repeated by head and tail, see r.Extra)
+		{"list.FlatMap(one element each)", func(tick func(string, int)) fp.List[int] {
+			return list.FlatMap(list.Of(0, 1, 2), func(v int) fp.List[int] { tick("flatmapped function", v); return list.Of(listWant[v]) })
+		}},
+		{"list.FlatMap(list.Generate)", func(tick func(string, int)) fp.List[int] {
+			return list.FlatMap(gen(tick, "generator"), func(v int) fp.List[int] { tick("flatmapped function", v-10); return list.Of(v) })
+		}},
+		{"list.FlatMap(two and one elements)", func(tick func(string, int)) fp.List[int] {
+			return list.FlatMap(list.Of(0, 1), func(v int) fp.List[int] {
+				tick("flatmapped function", v)
+				if v == 0 {
+					return list.Of(10, 11)
+				}
+				return list.Of(12)
+			})
+		}},
+		{"list.FilterMap(always Some)", func(tick func(string, int)) fp.List[int] {
+			return list.FilterMap(list.Of(0, 1, 2), func(v int) fp.Option[int] { tick("filtermapped function", v); return fp.Some(listWant[v]) })
+		}},
+		{"list.Map2", func(tick func(string, int)) fp.List[int] {
+			return list.Map2(list.Of(0, 1, 2), list.Of(10), func(a, b int) int { tick("mapped function", a); return a + b })
+		}},
+		{"list.Ap", func(tick func(string, int)) fp.List[int] {
+			f := func(i int) fp.Func1[int, int] {
+				return func(a int) int { tick("applied function", i); return 10 + i + a }
+			}
+			return list.Ap(list.Of(f(0), f(1), f(2)), list.Of(0))
+		}},
+		{"list.Flatten(list.Map)", func(tick func(string, int)) fp.List[int] {
+			return list.Flatten(list.Map(list.Of(0, 1, 2), func(v int) fp.List[int] { tick("mapped function", v); return list.Of(listWant[v]) }))
+		}},
+		{"list.Scan", func(tick func(string, int)) fp.List[int] {
+			return list.Scan(list.Of(1, 1), 10, func(b, a int) int { tick("scan function", b-10); return b + a })
+		}},
+		{"list.Combine(Generate,Generate)", func(tick func(string, int)) fp.List[int] {
+			l := list.Generate(func(i int) fp.Option[int] {
+				tick("left generator", i)
+				if i < 2 {
+					return fp.Some(10 + i)
+				}
+				return fp.None[int]()
+			})
+			r := list.Generate(func(i int) fp.Option[int] {
+				tick("right generator", i)
+				if i < 1 {
+					return fp.Some(12)
+				}
+				return fp.None[int]()
+			})
+			return list.Combine(l, r)
+		}},
+		{"list.Zip3(Generate x3)", func(tick func(string, int)) fp.List[int] {
+			z := list.Zip3(gen(tick, "first generator"), gen(tick, "second generator"), gen(tick, "third generator"))
+			return list.Map(z, func(t fp.Tuple3[int, int, int]) int {
+				tick("mapped function", t.I1-10)
+				return (t.I1 + t.I2 + t.I3) / 3
+			})
+		}},
+		{"list.Recurrence2", func(tick func(string, int)) fp.List[int] {
+			return list.Recurrence2(10, 11, func(a, b int) int { tick("recurrence step", a-10); return b + 1 })
+		}},
+		{"list.GenerateFrom", func(tick func(string, int)) fp.List[int] {
+			return list.GenerateFrom(5, func(i int) fp.Option[int] { tick("generator", i-5); return some(i - 5) })
+		}},
+		{"list.Range", func(tick func(string, int)) fp.List[int] { return list.Range(10, 13) }},
+		{"list.ReverseSeq", func(tick func(string, int)) fp.List[int] { return list.ReverseSeq(fp.Seq[int]{12, 11, 10}) }},
 	}
 }
 
@@ -746,7 +817,7 @@ func listCells(steps int) func(x *mc.X) {
 			}
 			c := x.Choose(len(cellOps)*avail, "operation x cell")
 			op, i := cellOps[c%len(cellOps)], c/len(cellOps)
-			empty := i >= len(listWant) && k.name != "list.Recurrence1"
+			empty := i >= len(listWant) && !infiniteLists[k.name]
 			if op == "Head" && empty {
 				op = "IsEmpty" // Head of the end of the list panics by contract
 			}
